@@ -681,7 +681,7 @@ fn build_filters(qs: &mut QueryServerReadTransaction, f: &F, m: Mode) -> Result<
 fn main() {
     let args = parse_args();
     let mut rng = Rng::new(args.seed);
-    let mut sink = Sink::new(&args, "KV.C23.Model", 6);
+    let mut sink = Sink::new(&args, "KV.C23.Model", 5);
     sink.import("KV.Base.Filter");
     sink.rule = "one case = one (world, caller): a real IdmServer with all built-in profiles plus 4-8 random search \
 profiles (group / entry-manager / no receiver, random target filters incl. SelfUuid, random attribute sets) over random \
@@ -692,7 +692,7 @@ search_ext (random requested attribute lists), exists, and for anonymous LdapSer
 non-trivial = in this case some query released an entry AND some query withheld a matching entry or released only part \
 of an entry's attributes".into();
     let rt = tokio::runtime::Builder::new_current_thread().enable_all().build().expect("rt");
-    let n_worlds = if args.thorough { 90 } else { 14 };
+    let n_worlds = if args.thorough { 100 } else { 12 };
     for wn in 0..n_worlds {
         rt.block_on(one_world(&mut rng, &mut sink, wn, args.thorough));
     }
@@ -799,6 +799,7 @@ async fn one_world(rng: &mut Rng, sink: &mut Sink, wn: u64, thorough: bool) {
             Who::Synch => (ident_synch(uu(wn, 0xfff0)), None, "synch".to_string(), "(mkI OSynch ScSync)".to_string()),
         };
         let is_user = me.is_some();
+        let is_internal = matches!(who, Who::Internal(_));
         let is_anon = me == Some(UUID_ANONYMOUS);
         let system = ident_internal(0);
 
@@ -899,7 +900,7 @@ async fn one_world(rng: &mut Rng, sink: &mut Sink, wn: u64, thorough: bool) {
                         let ee = ExistsEvent { ident: ident.clone(), filter: filter.clone(), filter_orig: forig.clone() };
                         let r = pr.as_mut().expect("txn").qs_read.exists(&ee);
                         // outside: does the same caller's search reveal an untracked entry?
-                        let outside = if is_user {
+                        let outside = if !is_internal {
                             let se = SearchEvent { ident: ident.clone(), filter, filter_orig: forig, attrs: None, effective_access_check: false };
                             pr.as_mut().expect("txn").qs_read.search(&se).map(|v| v.iter().any(|e| !in_world.contains_key(&e.get_uuid()))).unwrap_or(false)
                         } else {
@@ -969,7 +970,7 @@ async fn one_world(rng: &mut Rng, sink: &mut Sink, wn: u64, thorough: bool) {
                     };
                     let ee = ExistsEvent { ident: ident.clone(), filter: filter.clone(), filter_orig: forig.clone() };
                     let r = pr.as_mut().expect("txn").qs_read.exists(&ee);
-                    let outside = if is_user {
+                    let outside = if !is_internal {
                         let se = SearchEvent { ident: ident.clone(), filter, filter_orig: forig, attrs: None, effective_access_check: false };
                         pr.as_mut().expect("txn").qs_read.search(&se).map(|v| v.iter().any(|e| !in_world.contains_key(&e.get_uuid()))).unwrap_or(false)
                     } else {
